@@ -2,10 +2,11 @@
    and of their specifications for the correspondence check. ExtrOcamlBasic only; model and spec files only. *)
 From Coq Require Import ExtrOcamlBasic.
 From Verif Require Import Base.GoInt Json.Ext Generated.JsonParseGen Json.Grammar Json.Spec Json.StrExt
-  Generated.JsonStringGen Json.StrModel Json.StrSpec Json.NumModel Json.NumSpec Json.FloatModel Json.FloatSpec.
+  Generated.JsonStringGen Json.StrModel Json.StrSpec Json.NumModel Json.NumSpec Json.FloatModel Json.FloatSpec Json.TreeModel.
 Extraction Language OCaml.
 Extraction "model_c01.ml" escape_flags std_escape unmarshal_string spec_unmarshal_string append_unescape uq_lit sanitize
   utf8_decode_rune utf8_encode_rune utf16_is_surrogate utf16_decode_rune coerce_utf8
   append_int append_uint z_to_dec unmarshal_int spec_unmarshal_int
   json_escapeIndex escape_index_tot first_index needs_escape_json g_valid
-  pkg_encode_float pkg_encode_float32 pkg_encode_float64 std_float_encode float_repr_of_bits fres_obs.
+  pkg_encode_float pkg_encode_float32 pkg_encode_float64 std_float_encode float_repr_of_bits fres_obs
+  jenc jenc_ws jdec jdec_fuel jwf ty_ok jzero jnorm.
